@@ -368,11 +368,39 @@ def run_solver(rng, obs):
             if nstep[0] > (G + 2) * (dim * dim + 4): raise TooLong()
             return real_step(*a, **kw)
         s.Step = Step
+        savefile = None
+        if rng.random() < 0.15:       # a periodic restart file is written while the solve goes through its collapses
+            import os
+            from .. import env
+            d = os.path.join(env.OUT, 'c11'); os.makedirs(d, exist_ok=True)
+            savefile = os.path.join(d, 'restart-%d-%d-%d.pkl' % (obs.idx, os.getpid(), round_))
+            s.SetSaveFrequency(rng.choice([1, 3, 5]), savefile)
         try:
             s.Solve(probe, disp=0)
             finished = True
         except TooLong:
             finished = False
+        if savefile and finished:
+            import os
+            from mystic.solvers import LoadSolver
+            if os.path.exists(savefile):
+                try:
+                    r = LoadSolver(savefile)
+                    rep = r.Collapsed(info=True) or {}
+                    st = mt.state(r._termination)
+                    for k_, v_ in (rep.items() if isinstance(rep, dict) else []):
+                        norm = lambda S: set(tuple(sorted(map(int, i))) if isinstance(i, (tuple, list)) else int(i) for i in (S or ()))
+                        name_ = k_.split(' with ')[0]       # (the report may be keyed by an older wording of the condition: match by kind)
+                        inmask = set()
+                        for k2, v2 in st.items():
+                            if k2.split(' with ')[0] == name_: inmask |= norm(v2.get('mask'))
+                        again = norm(v_) & inmask
+                        obs.check(not again, 'solver:the same collapse is never reported again', condition=k_.split(' with ')[0], again=sorted(map(str, again)), solver=kind,
+                                  where='Collapsed() of the solver restored from the restart file written during the solve')
+                    obs.event('restart_files_of_collapsing_solves')
+                finally:
+                    try: os.remove(savefile)
+                    except OSError: pass
         obs.check(finished and bool(s.Terminated()), 'solver:the solve still terminates after collapses', steps=nstep[0], solver=kind, collapses=len(applied))
         obs.check(not bad, 'solver:every point evaluated after a collapse satisfies the collapsed relation exactly', first=bad[:2], solver=kind, fixed=fixed,
                   tied=sorted(tied), ncalls=probe.n)
